@@ -1,9 +1,10 @@
 from common import COMMON_TRUST
 
 PROP = {
-    "generated": [],
+    "generated": ["FormConsts"],
     "lean_modules": ["SwimVerif.Model.FormSchema", "SwimVerif.Model.FormWF", "SwimVerif.Model.FormIO",
-                     "SwimVerif.Model.FormMon", "SwimVerif.Proofs.FormSchema", "SwimVerif.Proofs.FormTypes"],
+                     "SwimVerif.Model.FormMon", "SwimVerif.Proofs.FormSchema", "SwimVerif.Proofs.FormTypes",
+                     "SwimVerif.Generated.FormConsts"],
     "engines": [
         # model of as_value / try_from_value against the real derive output, on written and on mutated values
         {"name": "form-model", "crate": "core", "bin": "sv-c16", "machine": "c16",
